@@ -1035,33 +1035,54 @@ func (s *sharedEntryAttributes) validateLeafListMinMaxAttributes(resultChan chan
 	}
 }
 
+// stringRestrictedValues returns the type of a leaf or leaf-list together with the values the string restrictions
+// (length, pattern) apply to: the value of the leaf or every element of the leaf-list.
+func (s *sharedEntryAttributes) stringRestrictedValues(resultChan chan<- *types.ValidationResultEntry) (*sdcpb.SchemaLeafType, *LeafEntry, []string) {
+	var typeSchema *sdcpb.SchemaLeafType
+	switch {
+	case s.schema.GetField() != nil:
+		typeSchema = s.schema.GetField().GetType()
+	case s.schema.GetLeaflist() != nil:
+		typeSchema = s.schema.GetLeaflist().GetType()
+	}
+	if typeSchema == nil || (len(typeSchema.GetLength()) == 0 && len(typeSchema.GetPatterns()) == 0) {
+		return nil, nil, nil
+	}
+	lv := s.leafVariants.GetHighestPrecedenceRemaining()
+	if lv == nil {
+		return nil, nil, nil
+	}
+	tv, err := lv.Value()
+	if err != nil {
+		resultChan <- types.NewValidationResultEntry(lv.Owner(), fmt.Errorf("failed reading value from %s LeafVariant %v: %w", s.Path(), lv, err), types.ValidationResultEntryTypeError)
+		return nil, nil, nil
+	}
+	if s.schema.GetLeaflist() != nil {
+		values := make([]string, 0, len(tv.GetLeaflistVal().GetElement()))
+		for _, e := range tv.GetLeaflistVal().GetElement() {
+			values = append(values, e.GetStringVal())
+		}
+		return typeSchema, lv, values
+	}
+	return typeSchema, lv, []string{tv.GetStringVal()}
+}
+
 func (s *sharedEntryAttributes) validateLength(resultChan chan<- *types.ValidationResultEntry) {
-	if schema := s.schema.GetField(); schema != nil {
-
-		if len(schema.GetType().Length) == 0 {
-			return
-		}
-
-		lv := s.leafVariants.GetHighestPrecedenceRemaining()
-		if lv == nil {
-			return
-		}
-
-		tv, err := lv.Value()
-		if err != nil {
-			resultChan <- types.NewValidationResultEntry(lv.Owner(), fmt.Errorf("failed reading value from %s LeafVariant %v: %w", s.Path(), lv, err), types.ValidationResultEntryTypeError)
-			return
-		}
-		value := tv.GetStringVal()
+	typeSchema, lv, values := s.stringRestrictedValues(resultChan)
+	if typeSchema == nil || len(typeSchema.GetLength()) == 0 {
+		return
+	}
+VALUES:
+	for _, value := range values {
 		actualLength := utf8.RuneCountInString(value)
 
-		for _, lengthDef := range schema.GetType().Length {
+		for _, lengthDef := range typeSchema.GetLength() {
 			if lengthDef.Min.Value <= uint64(actualLength) && uint64(actualLength) <= lengthDef.Max.Value {
-				return
+				continue VALUES
 			}
 		}
 		lenghts := []string{}
-		for _, lengthDef := range schema.GetType().Length {
+		for _, lengthDef := range typeSchema.GetLength() {
 			lenghts = append(lenghts, fmt.Sprintf("%d..%d", lengthDef.Min.Value, lengthDef.Max.Value))
 		}
 		resultChan <- types.NewValidationResultEntry(lv.Owner(), fmt.Errorf("error length of Path: %s, Value: %s not within allowed length %s", s.Path(), value, strings.Join(lenghts, ", ")), types.ValidationResultEntryTypeError)
@@ -1069,21 +1090,12 @@ func (s *sharedEntryAttributes) validateLength(resultChan chan<- *types.Validati
 }
 
 func (s *sharedEntryAttributes) validatePattern(resultChan chan<- *types.ValidationResultEntry) {
-	if schema := s.schema.GetField(); schema != nil {
-		if len(schema.Type.Patterns) == 0 {
-			return
-		}
-		lv := s.leafVariants.GetHighestPrecedenceRemaining()
-		if lv == nil {
-			return
-		}
-		tv, err := lv.Update.Value()
-		if err != nil {
-			resultChan <- types.NewValidationResultEntry(lv.Owner(), fmt.Errorf("failed reading value from %s LeafVariant %v: %w", s.Path(), lv, err), types.ValidationResultEntryTypeError)
-			return
-		}
-		value := tv.GetStringVal()
-		for _, pattern := range schema.Type.Patterns {
+	typeSchema, lv, values := s.stringRestrictedValues(resultChan)
+	if typeSchema == nil || len(typeSchema.GetPatterns()) == 0 {
+		return
+	}
+	for _, value := range values {
+		for _, pattern := range typeSchema.GetPatterns() {
 			if p := pattern.GetPattern(); p != "" {
 				// YANG patterns (XSD regular expressions) are implicitly anchored to the whole value
 				matched, err := regexp.MatchString("^(?:"+p+")$", value)
